@@ -306,11 +306,13 @@ class TransportMixIn(object):
             pass
         else:
             for (key, value) in extra_headers:
-                additional_headers[key] = value
+                additional_headers[str(key).lower()] = value
 
-        # Prepare the merged dictionary
+        # Prepare the merged dictionary: header names are case-insensitive,
+        # the latest pushed value replaces any other spelling of the name
         for headers in self.additional_headers:
-            additional_headers.update(headers)
+            for key, value in headers.items():
+                additional_headers[str(key).lower()] = value
 
         # Normalize keys and values
         additional_headers = dict(
